@@ -238,8 +238,8 @@ Proof.
     destruct (out (get l j)); [discriminate| | |]; eauto.
 Qed.
 
-Lemma scan_GCancelled l base tc order last now :
-  scan l base tc order last now = GCancelled -> tc <> None.
+Lemma scan_GCancelled l base tc order last now t :
+  scan l base tc order last now = GCancelled t -> tc <> None.
 Proof.
   revert last now. induction order as [|j r IH]; simpl; intros last now H.
   - destruct tc; [discriminate|]. simpl in H. destruct (has_hang l); [discriminate|]. destruct last; discriminate.
@@ -280,27 +280,76 @@ Proof.
 Qed.
 
 Lemma scan_cancel_or_same l base c order last now :
-  scan l base (Some c) order last now = GCancelled \/
+  (exists t, scan l base (Some c) order last now = GCancelled t) \/
   scan l base (Some c) order last now = scan l base None order last now.
 Proof.
   revert last now. induction order as [|j r IH]; simpl; intros last now.
-  - destruct (has_hang l); auto. destruct (c <=? now); auto.
-  - destruct (c <=? base + delay (get l j)); auto. destruct (out (get l j)); auto.
+  - destruct (has_hang l); eauto. destruct (c <=? now); eauto.
+  - destruct (c <=? base + delay (get l j)); eauto. destruct (out (get l j)); auto.
 Qed.
 
 Lemma scan_some_not_blocked l base c order last now : scan l base (Some c) order last now <> GBlocked.
 Proof. intro H. apply scan_GBlocked in H. destruct H. discriminate. Qed.
 
-(* the instant of return of a group is not later than the cancellation *)
-Lemma gtime_le_cancel l base c order g :
-  run_group l base (Some c) order = g -> exists t, gtime l base (Some c) g = Some t /\ t <= c.
+(* Every completion the loop consumed happened before the cancellation. *)
+Lemma scan_GLast_uncancelled l base tc order last now i :
+  scan l base tc order last now = GLast i ->
+  Forall (fun j => cancelled tc (base + delay (get l j)) = false) order.
 Proof.
-  unfold run_group. intro H. destruct g; simpl.
-  - apply scan_GOk in H. destruct H as [pre [post [_ [_ [_ H]]]]]. apply not_cancelled_lt in H. eexists; split; [reflexivity|lia].
-  - apply scan_GLast in H; [|reflexivity]. destruct H as [_ [_ [_ H]]]. apply not_cancelled_lt in H. eexists; split; [reflexivity|lia].
-  - apply scan_GBug in H. destruct H as [_ [_ [_ H]]]. apply not_cancelled_lt in H. eexists; split; [reflexivity|lia].
-  - apply scan_some_not_blocked in H. destruct H.
-  - eexists; split; [reflexivity|lia].
+  revert last now. induction order as [|j r IH]; simpl; intros last now H; [constructor|].
+  destruct (cancelled tc (base + delay (get l j))) eqn:Ec; [discriminate|].
+  destruct (out (get l j)); [discriminate| | |]; constructor; eauto.
+Qed.
+
+(* The instant of return of a group is not later than the cancellation when a node that is still
+   awaited returns on cancellation: all remaining completions are of such nodes, or one of them
+   is and cannot complete before the cancellation, or a node hangs. *)
+Definition hearing_rest (l : list node) (base c : N) (order : list nat) : Prop :=
+  Forall (fun j => hears (get l j) = true) order \/
+  (exists j, In j order /\ hears (get l j) = true /\ c <= base + delay (get l j)) \/
+  has_hang l = true.
+
+Lemma scan_time_le l base c order last now :
+  base <= c -> lastnow l base last now -> (now = base \/ cancelled (Some c) now = false) ->
+  hearing_rest l base c order ->
+  exists t, gtime l base (scan l base (Some c) order last now) = Some t /\ t <= c.
+Proof.
+  intros Hb. revert last now. induction order as [|i r IH]; intros last now Hl Hnow HK.
+  - simpl. destruct (has_hang l) eqn:Eh.
+    + simpl. eexists; split; [reflexivity|]. lia.
+    + destruct (c <=? now) eqn:Ec.
+      * simpl. eexists; split; [reflexivity|]. destruct Hnow as [Hn|Hn]; [lia|]. simpl in Hn. congruence.
+      * apply N.leb_gt in Ec. destruct last as [k|]; simpl in *.
+        -- eexists; split; [reflexivity|]. lia.
+        -- eexists; split; [reflexivity|]. lia.
+  - simpl. destruct (c <=? base + delay (get l i)) eqn:Ec.
+    + simpl. unfold notice. destruct (c <=? base) eqn:Eb.
+      * eexists; split; [reflexivity|]. lia.
+      * assert (hearer l (i :: r) = true) as Hh.
+        { unfold hearer. destruct HK as [HK|[[j [Hj [Hh _]]]|HK]].
+          - inversion HK; subst. simpl. rewrite H1. reflexivity.
+          - apply orb_true_intro. left. apply existsb_exists. eauto.
+          - rewrite HK. apply orb_true_r. }
+        rewrite Hh. eexists; split; [reflexivity|]. lia.
+    + apply N.leb_gt in Ec.
+      assert (hearing_rest l base c r) as HK'.
+      { destruct HK as [HK|[[j [Hj [Hh Hc]]]|HK]].
+        - left. inversion HK; auto.
+        - right. left. destruct Hj as [Hj|Hj]; [subst; lia|]. eauto.
+        - right. right. exact HK. }
+      destruct (out (get l i)) eqn:Eo.
+      * simpl. eexists; split; [reflexivity|]. lia.
+      * apply IH; auto. reflexivity. right. simpl. apply N.leb_gt. exact Ec.
+      * apply IH; auto. reflexivity. right. simpl. apply N.leb_gt. exact Ec.
+      * apply IH; auto. reflexivity. right. simpl. apply N.leb_gt. exact Ec.
+Qed.
+
+(* with a cancellation the group always returns *)
+Lemma scan_some_time l base c order last now :
+  exists t, gtime l base (scan l base (Some c) order last now) = Some t.
+Proof.
+  destruct (scan l base (Some c) order last now) eqn:E; simpl; eauto.
+  apply scan_GBlocked in E. destruct E. discriminate.
 Qed.
 
 (* ---- one group ---- *)
@@ -411,6 +460,35 @@ Lemma provide_model prim fb pord ford tc :
   /\ m_time (model prim fb pord ford tc) = finish_time prim fb pord ford tc.
 Proof. unfold model, provide, finish_time. destruct (consult prim fb (run_group prim 0 tc pord)); simpl; auto. Qed.
 
+(* conditions under which the caller's cancellation at c is noticed at once *)
+Definition pending_hearerP (c : N) (l : list node) : Prop :=
+  exists j, (j < length l)%nat /\ hears (get l j) = true /\ (is_hang (out (get l j)) = true \/ c <= delay (get l j)).
+
+Lemma pending_hearer_inv c l : pending_hearer c l = true -> pending_hearerP c l.
+Proof.
+  unfold pending_hearer. intro H. apply existsb_exists in H. destruct H as [n [Hn H]].
+  destruct (in_get l n Hn) as [j [Hj Hg]]. exists j. rewrite Hg.
+  apply andb_prop in H. destruct H as [H1 H2]. repeat split; auto.
+  apply orb_prop in H2. destruct H2 as [H2|H2]; auto. right. apply N.leb_le. exact H2.
+Qed.
+
+Lemma group_time_le l base c order :
+  order_ok l order = true -> base <= c ->
+  (forallb hears l = true \/ exists j, (j < length l)%nat /\ hears (get l j) = true /\
+                                      (is_hang (out (get l j)) = true \/ c <= base + delay (get l j))) ->
+  exists t, gtime l base (run_group l base (Some c) order) = Some t /\ t <= c.
+Proof.
+  intros Hok Hb H. destruct (order_ok_inv _ _ Hok) as [Hr [Hcov _]].
+  unfold run_group. apply scan_time_le; auto; [reflexivity|].
+  destruct H as [H|[j [Hj [Hh [Hx|Hx]]]]].
+  - left. apply Forall_forall. intros k Hk. unfold in_range in Hr. rewrite Forall_forall in Hr.
+    destruct (Hr k Hk) as [Hkl _]. rewrite forallb_forall in H. apply H. apply get_in. exact Hkl.
+  - right. right. unfold has_hang. apply existsb_exists. exists (get l j). split; auto using get_in.
+  - destruct (is_hang (out (get l j))) eqn:Eh.
+    + right. right. unfold has_hang. apply existsb_exists. exists (get l j). split; auto using get_in.
+    + right. left. exists j. repeat split; auto.
+Qed.
+
 Lemma consult_inv prim fb g : consult prim fb g = true ->
   exists i c, g = GLast i /\ out (get prim i) = Err c /\ unavail c = true /\ fb <> [].
 Proof.
@@ -485,18 +563,46 @@ Lemma provide_cancel_or_same prim fb pord ford c :
   provide prim fb pord ford (Some c) = provide prim fb pord ford None.
 Proof.
   unfold provide, run_group.
-  destruct (scan_cancel_or_same prim 0 c pord None 0) as [H|H]; rewrite H; simpl; auto.
+  destruct (scan_cancel_or_same prim 0 c pord None 0) as [[t H]|H]; rewrite H; simpl; auto.
   destruct (consult prim fb (scan prim 0 None pord None 0)); auto.
   set (b := gbase prim (scan prim 0 None pord None 0)).
-  destruct (scan_cancel_or_same fb b c ford None b) as [H'|H']; rewrite H'; simpl; auto.
+  destruct (scan_cancel_or_same fb b c ford None b) as [[t H']|H']; rewrite H'; simpl; auto.
 Qed.
 
+Lemma finish_some prim fb pord ford c : exists t, finish_time prim fb pord ford (Some c) = Some t.
+Proof.
+  unfold finish_time, run_group. destruct (consult prim fb (scan prim 0 (Some c) pord None 0)); apply scan_some_time.
+Qed.
+
+(* The call returns not later than the cancellation when an awaited node honours its context. *)
 Lemma finish_le_cancel prim fb pord ford c :
+  order_ok prim pord = true -> order_ok fb ford = true ->
+  (forallb hears (prim ++ fb) = true \/ pending_hearerP c prim \/
+   (consulted prim fb pord (Some c) = true /\ pending_hearerP c fb)) ->
   exists t, finish_time prim fb pord ford (Some c) = Some t /\ t <= c.
 Proof.
-  unfold finish_time. destruct (consult prim fb (run_group prim 0 (Some c) pord)).
-  - eapply gtime_le_cancel. reflexivity.
-  - eapply gtime_le_cancel. reflexivity.
+  intros Hp Hf H. unfold finish_time. unfold consulted in H.
+  destruct (consult prim fb (run_group prim 0 (Some c) pord)) eqn:Ec.
+  - destruct (consult_inv _ _ _ Ec) as [i [cl [Hg _]]]. rewrite Hg. simpl.
+    pose proof Hg as Hg'. unfold run_group in Hg'.
+    pose proof (scan_GLast_uncancelled _ _ _ _ _ _ _ Hg') as Hunc.
+    destruct (group_last_inv _ _ _ _ _ Hp Hg) as [Hh [_ [_ [Hin _]]]].
+    assert (delay (get prim i) < c) as Hlt.
+    { rewrite Forall_forall in Hunc. specialize (Hunc i Hin). apply not_cancelled_lt in Hunc. lia. }
+    apply group_time_le; auto; [lia|].
+    destruct H as [H|[[j [Hj [Hhj Hx]]]|[_ [j [Hj [Hhj Hx]]]]]].
+    + left. rewrite forallb_app in H. apply andb_prop in H. tauto.
+    + exfalso. destruct Hx as [Hx|Hx].
+      * rewrite (has_hang_false _ Hh _ (get_in _ _ Hj)) in Hx. discriminate.
+      * destruct (order_ok_inv _ _ Hp) as [_ [Hcov _]].
+        assert (In j pord) as Hjo by (apply Hcov; auto; apply (has_hang_false _ Hh); apply get_in; exact Hj).
+        rewrite Forall_forall in Hunc. specialize (Hunc j Hjo). apply not_cancelled_lt in Hunc. lia.
+    + right. exists j. repeat split; auto. destruct Hx as [Hx|Hx]; auto. right. lia.
+  - apply group_time_le; auto; [lia|].
+    destruct H as [H|[[j [Hj [Hhj Hx]]]|[H _]]].
+    + left. rewrite forallb_app in H. apply andb_prop in H. tauto.
+    + right. exists j. repeat split; auto.
+    + discriminate.
 Qed.
 
 Lemma provide_blocked_inv prim fb pord ford tc :
@@ -506,7 +612,7 @@ Lemma provide_blocked_inv prim fb pord ford tc :
 Proof.
   intros Hp Hf. unfold provide, finish_time.
   assert (forall l base order w, order_ok l order = true ->
-            lift w l (run_group l base tc order) = RBlocked \/ gtime l base tc (run_group l base tc order) = None ->
+            lift w l (run_group l base tc order) = RBlocked \/ gtime l base (run_group l base tc order) = None ->
             tc = None /\ has_hang l = true) as G.
   { intros l base order w Hok H. destruct (run_group l base tc order) eqn:E; simpl in H.
     - destruct H; discriminate.
@@ -514,7 +620,7 @@ Proof.
       destruct H as [H|H]; [|discriminate]. destruct (out (get l i)); simpl in *; discriminate.
     - destruct H; discriminate.
     - apply scan_GBlocked in E. destruct E. auto.
-    - destruct H as [H|H]; [discriminate|]. apply scan_GCancelled in E. congruence. }
+    - destruct H; discriminate. }
   destruct (consult prim fb (run_group prim 0 tc pord)); intro H.
   - destruct (G _ _ _ _ Hf H) as [H1 H2]. rewrite H2. split; auto using orb_true_r.
   - destruct (G _ _ _ _ Hp H) as [H1 H2]. rewrite H2. auto.
@@ -593,10 +699,19 @@ Qed.
 Lemma mon_cancel c : accepts c = true -> m_cancel c = true.
 Proof.
   intro Hacc. destruct (accepts_inv c Hacc) as [Hp [Hf [Hres [Htime [Hlen Hcall]]]]].
-  (* cancellation *)
-    unfold m_cancel. destruct (c_tc c) as [tc|] eqn:Etc; auto.
-    destruct (finish_le_cancel (c_prim c) (c_fb c) (c_pord c) (c_ford c) tc) as [t [H1 H2]].
-    rewrite Htime, H1. apply N.leb_le. exact H2.
+  unfold m_cancel. destruct (c_tc c) as [tc|] eqn:Etc; auto.
+  destruct (finish_some (c_prim c) (c_fb c) (c_pord c) (c_ford c) tc) as [t0 Ht0].
+  destruct (forallb hears (c_prim c ++ c_fb c) || pending_hearer tc (c_prim c)
+            || fb_any_called c && pending_hearer tc (c_fb c)) eqn:E.
+  - destruct (finish_le_cancel (c_prim c) (c_fb c) (c_pord c) (c_ford c) tc Hp Hf) as [t [H1 H2]].
+    + apply orb_prop in E. destruct E as [E|E]; [apply orb_prop in E; destruct E as [E|E]|].
+      * left. exact E.
+      * right. left. apply pending_hearer_inv. exact E.
+      * right. right. apply andb_prop in E. destruct E as [E1 E2]. split; [|apply pending_hearer_inv; exact E2].
+        destruct (consulted (c_prim c) (c_fb c) (c_pord c) (Some tc)) eqn:Ec; auto.
+        simpl in Hcall. unfold fb_any_called in E1. rewrite (not_called_none _ Hcall) in E1. discriminate.
+    + rewrite Htime, H1. apply N.leb_le. exact H2.
+  - rewrite Htime, Ht0. reflexivity.
 Qed.
 
 Lemma mon_answer c : accepts c = true -> m_answer c = true.
@@ -771,9 +886,9 @@ Proof.
 Qed.
 
 (* The same two failures, completing in the two possible orders, give the two decisions. *)
-Definition mixed_a : list node := [mkn (Err Other) 1; mkn (Err Timeout) 2].
-Definition mixed_b : list node := [mkn (Err Other) 2; mkn (Err Timeout) 1].
-Definition one_fb : list node := [mkn (Success 7) 1].
+Definition mixed_a : list node := [mkn (Err Other) 1 false; mkn (Err Timeout) 2 false].
+Definition mixed_b : list node := [mkn (Err Other) 2 false; mkn (Err Timeout) 1 false].
+Definition one_fb : list node := [mkn (Success 7) 1 false].
 Lemma fallback_mixed_witness :
   order_ok mixed_a [0; 1]%nat = true /\ order_ok mixed_b [1; 0]%nat = true /\
   provide mixed_a one_fb [0; 1]%nat [0%nat] None = ROk (F 0) 7 /\
@@ -823,13 +938,16 @@ Qed.
 Theorem cancel_returns prim fb pord ford c :
   order_ok prim pord = true -> order_ok fb ford = true ->
   provide prim fb pord ford (Some c) <> RBlocked /\
-  (exists t, finish_time prim fb pord ford (Some c) = Some t /\ t <= c) /\
+  (exists t, finish_time prim fb pord ford (Some c) = Some t /\
+     ((forallb hears (prim ++ fb) = true \/ pending_hearerP c prim \/
+       (consulted prim fb pord (Some c) = true /\ pending_hearerP c fb)) -> t <= c)) /\
   (provide prim fb pord ford (Some c) = RCtx \/
    provide prim fb pord ford (Some c) = provide prim fb pord ford None).
 Proof.
   intros Hp Hf. split; [|split].
   - intro H. destruct (provide_blocked_inv prim fb pord ford (Some c) Hp Hf (or_introl H)) as [H1 _]. discriminate.
-  - apply finish_le_cancel.
+  - destruct (finish_some prim fb pord ford c) as [t Ht]. exists t. split; auto. intro H.
+    destruct (finish_le_cancel prim fb pord ford c Hp Hf H) as [t' [H1 H2]]. congruence.
   - apply provide_cancel_or_same.
 Qed.
 
@@ -908,7 +1026,7 @@ Qed.
 (* a hung primary, a failing one and two successful ones: the faster success wins at its latency;
    the label observed on the real client for this script is accepted and passes the monitor *)
 Definition ex_case : case :=
-  mkc Plain [mkn Hang 0; mkn (Err Gateway) 3; mkn (Success 101) 5; mkn (Success 102) 900] [mkn (Success 200) 1]
+  mkc Plain [mkn Hang 0 false; mkn (Err Gateway) 3 false; mkn (Success 101) 5 false; mkn (Success 102) 900 false] [mkn (Success 200) 1 false]
       [1; 2; 3]%nat [0%nat] None (ROk (P 2) 101) (Some 5)
       [Cancelled 5; Done 3; Done 5; Cancelled 5] [NotCalled].
 Lemma ex_case_accepted : accepts ex_case = true /\ monitor ex_case = true.
@@ -916,7 +1034,7 @@ Proof. vm_compute. auto. Qed.
 
 (* all primaries unavailable, fallback group with a hung node: first successful fallback *)
 Definition ex_fallback : case :=
-  mkc Submit [mkn (Err Timeout) 4; mkn (Err Syncing) 2] [mkn Hang 0; mkn (Success 0) 7]
+  mkc Submit [mkn (Err Timeout) 4 false; mkn (Err Syncing) 2 false] [mkn Hang 0 false; mkn (Success 0) 7 false]
       [1; 0]%nat [1%nat] None (ROk (F 1) 0) (Some 11)
       [Done 4; Done 2] [Cancelled 11; Done 11].
 Lemma ex_fallback_accepted : accepts ex_fallback = true /\ monitor ex_fallback = true.
@@ -925,11 +1043,48 @@ Proof. vm_compute. auto. Qed.
 (* the monitor is not trivially true: waiting for the slower node, missing the fallback, or
    answering although cancelled late are all rejected *)
 Lemma monitor_rejects :
-  monitor (mkc Plain [mkn (Success 101) 5; mkn (Success 102) 900] [] [0; 1]%nat [] None
+  monitor (mkc Plain [mkn (Success 101) 5 false; mkn (Success 102) 900 false] [] [0; 1]%nat [] None
                (ROk (P 0) 101) (Some 900) [Done 5; Done 900] []) = false /\
-  monitor (mkc Plain [mkn (Err Timeout) 5] [mkn (Success 200) 1] [0%nat] [0%nat] None
+  monitor (mkc Plain [mkn (Err Timeout) 5 false] [mkn (Success 200) 1 false] [0%nat] [0%nat] None
                (RErr (P 0) Timeout) (Some 5) [Done 5] [NotCalled]) = false /\
-  monitor (mkc Plain [mkn (Err Other) 5] [mkn (Success 200) 1] [0%nat] [0%nat] None
+  monitor (mkc Plain [mkn (Err Other) 5 false] [mkn (Success 200) 1 false] [0%nat] [0%nat] None
                (ROk (F 0) 200) (Some 6) [Done 5] [Done 6]) = false /\
-  monitor (mkc Plain [mkn Hang 0] [] [] [] (Some 10) RCtx (Some 11) [Cancelled 10] []) = false.
+  monitor (mkc Plain [mkn Hang 0 false] [] [] [] (Some 10) RCtx (Some 11) [Cancelled 10] []) = false.
+Proof. vm_compute. auto. Qed.
+
+(* ---- nodes that ignore their context ---- *)
+
+(* a primary hung in a way that ignores cancellation (returns a timeout after an hour) and a healthy
+   one: the healthy answer is returned at its own latency, the hung call is abandoned (still
+   running when the call returns) *)
+Definition ex_deaf_success : case :=
+  mkc Plain [mkn (Err Timeout) 3600000 true; mkn (Success 101) 10 false] [] [1; 0]%nat [] None
+      (ROk (P 1) 101) (Some 10) [Pending; Done 10] [].
+(* the same hung primary next to an ordinary in-flight request, caller cancels at 1000 *)
+Definition ex_deaf_cancel : case :=
+  mkc Submit [mkn (Err Timeout) 3600000 true; mkn Hang 0 false] [] [0%nat] [] (Some 1000)
+      RCtx (Some 1000) [Pending; Cancelled 1000] [].
+(* primaries fail, the fallback round contains such a hung node and a healthy one *)
+Definition ex_deaf_fallback : case :=
+  mkc Proxy [mkn (Err Gateway) 5 false] [mkn (Err Timeout) 3600000 true; mkn (Success 201) 10 false]
+      [0%nat] [1; 0]%nat None (ROk (F 1) 201) (Some 15) [Done 5] [Pending; Done 15].
+Lemma ex_deaf_accepted :
+  (accepts ex_deaf_success = true /\ monitor ex_deaf_success = true) /\
+  (accepts ex_deaf_cancel = true /\ monitor ex_deaf_cancel = true) /\
+  (accepts ex_deaf_fallback = true /\ monitor ex_deaf_fallback = true).
+Proof. vm_compute. auto 10. Qed.
+
+(* what a client that joins its workers before returning shows on the same scripts is rejected *)
+Lemma monitor_rejects_waiting_for_deaf :
+  monitor (mkc Plain [mkn (Err Timeout) 3600000 true; mkn (Success 101) 10 false] [] [1; 0]%nat [] None
+               (ROk (P 1) 101) (Some 3600000) [Done 3600000; Done 10] []) = false /\
+  monitor (mkc Submit [mkn (Err Timeout) 3600000 true; mkn Hang 0 false] [] [0%nat] [] (Some 1000)
+               RCtx (Some 3600000) [Done 3600000; Cancelled 1000] []) = false.
+Proof. vm_compute. auto. Qed.
+
+(* When ONLY context-ignoring calls are awaited the cancellation is noticed with the next result:
+   this is what the code does (the join loop has no select on ctx.Done()). *)
+Lemma cancel_waits_when_only_deaf_awaited :
+  provide [mkn (Err Timeout) 3600000 true] [] [0%nat] [] (Some 1000) = RCtx /\
+  finish_time [mkn (Err Timeout) 3600000 true] [] [0%nat] [] (Some 1000) = Some 3600000.
 Proof. vm_compute. auto. Qed.
